@@ -623,29 +623,44 @@ def _overlap_error(clause: str, detail: dict) -> bool:
             and detail.get("where", "").endswith("record.py:add_region"))
 
 
+def _sweep_model(areas: list, length: int) -> list:
+    """ what one pass over the sorted areas plus a single 'first section overlaps last section' repair gives:
+        the base sets of the resulting sections (exact unions, no span heuristics) """
+    def key(area: dict) -> tuple:
+        size = len(ring.bases(area))
+        if _crossing(area):
+            return (max(p[0] for p in area["parts"]) - length, -size)
+        return (area["parts"][0][0], -size)
+    ordered = sorted(areas, key=key)
+    sections = []
+    current = set(ring.bases(ordered[0]))
+    for area in ordered[1:]:
+        bases = ring.bases(area)
+        if bases & current:
+            current |= bases
+        else:
+            sections.append(current)
+            current = set(bases)
+    sections.append(current)
+    if len(sections) > 1 and sections[0] & sections[-1]:
+        sections[0] |= sections.pop()
+    return sections
+
+
 def sig_sweep_misses_pre_origin(sub, spec, clause, detail) -> bool:
-    """ circular record; a component that crosses the origin has a non-crossing member lying in the part
-        before the origin (it sorts after everything else, when the sweep has already closed the
-        origin-crossing section and only 'first overlaps last' is repaired);
-        failure mode: create_regions dies with 'regions cannot overlap' """
+    """ input class: circular layouts with an origin-crossing area on which ONE pass over the sorted areas,
+        followed by a single 'first section overlaps last section' repair, still leaves two sections that share
+        bases (two separate late groups both reach into the part of the crossing section before the origin);
+        failure mode: create_regions dies with 'regions cannot overlap' raised by add_region """
     if not isinstance(detail, dict) or not detail.get("circular") or "areas" not in detail:
         return False
     if not _overlap_error(clause, detail):
         return False
-    areas, comps = _detail_model(detail)
-    for comp in comps:
-        crossers = [i for i in comp if _crossing(areas[i])]
-        if not crossers:
-            continue
-        pre_start = min(areas[i]["parts"][0][0] for i in crossers)
-        # the union's pre-origin part reaches back at least to pre_start; a member starting at or after it
-        # (or chained to it from there) sits before the origin
-        union = _union(areas, comp)
-        while pre_start - 1 in union:
-            pre_start -= 1
-        if any(not _crossing(areas[i]) and areas[i]["parts"][0][0] >= pre_start for i in comp):
-            return True
-    return False
+    areas = [{"parts": area["parts"]} for area in detail["areas"]]
+    if not any(_crossing(area) for area in areas):
+        return False
+    sections = _sweep_model(areas, detail["L"])
+    return any(one & two for one, two in itertools.combinations(sections, 2))
 
 
 def sig_span_longer_than_union(sub, spec, clause, detail) -> bool:
